@@ -3,6 +3,7 @@ import SaModel.Basic.Float
 import SaModel.Data.Schema
 import SaModel.Data.SVal
 import SaModel.Data.Arr
+import SaModel.Data.Ext
 /-
 Operational model of `serde_arrow/src/internal/serialization/*`: one constructor of `B` per family of
 `ArrayBuilder`, state exactly as in the Rust structs (validity as abstract bits, offsets, data, counters,
@@ -15,16 +16,8 @@ Everything an `impl Context` annotates goes through `ctx (annOf b)`: innermost a
 namespace SaModel.Build
 open SaModel
 
-/-- functions of other crates / std the builders call; supplied by the correspondence case (trusted base) -/
-structure Ext where
-  f32Str : Nat → String := fun _ => ""                   -- `f32::to_string` of a bit pattern
-  f64Str : Nat → String := fun _ => ""
-  parseDate : Bool → String → R Int := fun _ _ => fail "ext"   -- date string → stored value (is64 ⇒ Date64 ms, else Date32 days)
-  parseTime : TimeUnit → String → R Int := fun _ _ => fail "ext"
-  parseTimestamp : TimeUnit → Bool → String → R Int := fun _ _ _ => fail "ext"
-  parseDuration : TimeUnit → String → R Int := fun _ _ => fail "ext"
-  parseDecimal : Nat → Int → String → R Int := fun _ _ _ => fail "ext"
-  floatToDecimal : Nat → Int → Bool → Nat → R Int := fun _ _ _ _ => fail "ext"
+/- `Ext` (the functions of other crates / std the builders call), `strBytes`, `indexOfName`, `strategyOf`:
+`SaModel/Data/Ext.lean` (shared with the specification, same names). -/
 
 /-- builders whose storage is a `PrimitiveArray`-like (validity, values) pair -/
 inductive LeafKind where
@@ -247,8 +240,6 @@ def scalarToString (ext : Ext) : SVal → Option String
   | .unitVariant _ _ variant => some variant
   | _ => none
 
-def strBytes (s : String) : Bytes := s.toUTF8.toList
-
 /-- `U8Serializer`: the byte an element of a binary sequence denotes -/
 def u8Of : SVal → R UInt8
   | .int _ v => if IntTy.u8.inRange v then .ok (UInt8.ofNat v.toNat) else fail "out of range integral type conversion attempted"
@@ -270,12 +261,6 @@ def keyStr : SVal → R String
   | .newtypeStruct _ v => keyStr v
   | x => notSupported s!"serialize_{x.kind}"
 
-def indexOfName (names : List String) (key : String) : Option Nat :=
-  let rec go : List String → Nat → Option Nat
-    | [], _ => none
-    | n :: ns, k => if n == key then some k else go ns (k + 1)
-  go names 0
-
 /-- `FieldLookup::lookup`: positional guess through the (address-keyed) name cache, else the index -/
 def lookup (names : List String) (cached : List (Option (String × Nat))) (guess : Nat) (key : String × Nat) :
     Option Nat × List (Option (String × Nat)) :=
@@ -285,8 +270,6 @@ def lookup (names : List String) (cached : List (Option (String × Nat))) (guess
     | some idx => (some idx, if cached[idx]? == some none then cached.set idx (some key) else cached)
 
 /-! ### construction (`build_builder`) -/
-
-def strategyOf (m : Metadata) : Option String := Metadata.get? m STRATEGY_KEY
 
 def isUtcTz : Option String → R Bool
   | none => .ok false
